@@ -1,5 +1,6 @@
 """Execute one job (an explicit operation list) in a fresh world and return its
 event log.  A job is plain JSON: it is also the body of a replay file."""
+import fcntl
 import hashlib
 import json
 import os
@@ -23,11 +24,16 @@ def fingerprint(events):
 
 def run_job(job):
     base = os.path.join(W.scratch_base(), job["root_id"])
-    shutil.rmtree(base, ignore_errors=True)
     os.makedirs(os.path.dirname(base), exist_ok=True)
-    w = W.World(base, clock_seed=job.get("clock_seed", 0))
+    # the path is part of the run's identity (replays reuse it byte for byte), so two
+    # concurrent runs of the same case must take turns
+    lock = os.open(base + ".lock", os.O_CREAT | os.O_RDWR, 0o644)
+    fcntl.flock(lock, fcntl.LOCK_EX)
+    w = None
     events = []
     try:
+        shutil.rmtree(base, ignore_errors=True)
+        w = W.World(base, clock_seed=job.get("clock_seed", 0))
         for op in job["ops"]:
             k = op["op"]
             if k == "invoke":
@@ -62,9 +68,11 @@ def run_job(job):
                 events.append({"op": k})
         sim_ns = w.now - W.T0
     finally:
-        w.close()
+        if w is not None:
+            w.close()
         if not job.get("keep_world"):
             shutil.rmtree(base, ignore_errors=True)
+        os.close(lock)  # the (empty) lock file stays: unlinking it would race with a waiter
     return {
         "id": job.get("id"),
         "events": events,
